@@ -705,12 +705,18 @@ func redactScalarValue(keyPath []string, v interface{}, isSearchStage bool, isSe
 	parentKey = keyPath[len(keyPath)-1]
 	switch parentKey {
 	case "$date":
-		return redactString(v.(string), RedactedISODate)
+		if s, ok := v.(string); ok {
+			return redactString(s, RedactedISODate)
+		}
 	case "$oid":
-		return redactString(v.(string), RedactedObjectId)
+		if s, ok := v.(string); ok {
+			return redactString(s, RedactedObjectId)
+		}
 	case "base64":
 		if grandParentKey == "$binary" {
-			return redactString(v.(string), RedactedUUID)
+			if s, ok := v.(string); ok {
+				return redactString(s, RedactedUUID)
+			}
 		}
 	}
 	switch v.(type) {
